@@ -60,6 +60,7 @@ def r_coerce(ctx):
                 return ("json-number", args[0] if args else None)
             return NotImplemented
         it = Interp(env={"field": field}, on_call=on_call)
+        it.resolve_fn = vf.new_fn_resolver(ctx.facts, [F])
         try:
             try:
                 v = it.block(fi.node["body"])
@@ -76,6 +77,9 @@ def r_coerce(ctx):
             if itext is None and isinstance(inner, absint.MutList) and getattr(inner, "kind", "") == "str":
                 itext = "".join(x[1] if isinstance(x, tuple) else str(x) for x in inner)
             got = "text" if itext == text else "text-altered:%r" % (inner,)
+        elif v is OPAQUE or v == OPAQUE:
+            ctx.incomplete_msg(rid, "%s: the result of coerce_field could not be evaluated" % name)
+            continue
         else:
             got = "other:%r" % (v,)
         ctx.site(rid, name, F, fi.line, {"class": name, "sample": text, "result": got, "expected": exp})
@@ -85,57 +89,115 @@ def r_coerce(ctx):
 
 def r_header(ctx):
     rid = "C13.header"
-    ctx.rule(rid, "in parse_csv_to_json each field of row 0 stays Value::String(field) iff has_header (defaulting to false), every other field "
-                  "goes through coerce_field; rows are pushed in order", floor=6)
+    ctx.rule(rid, "parse_csv_to_json on a scripted three-row reader: the result is Ok(Array of one Array per record, in order); each field of "
+                  "row 0 stays Value::String(field) iff has_header is Some(true) (None and Some(false) mean no header row), every other field "
+                  "is coerce_field(field); a reader error is returned as the error (abstract evaluation of the whole function, the csv reader "
+                  "and coerce_field scripted)", floor=6)
     fi = ctx.facts.fn(F, "parse_csv_to_json")
-    cl = None
-    for n in vf.walk(fi.node):
-        if n["k"] == "mcall" and n["m"] == "map" and n["a"] and n["a"][0]["k"] == "closure" and any(x["k"] == "call" and vf.src(x["f"]) == "coerce_field" for x in vf.walk(n["a"][0])):
-            cl = n["a"][0]
-    if cl is None:
-        raise vf.Incomplete("field-mapping closure not found")
-    # has_header default
-    dflt = None
-    for loc in vf.find(fi.node, "local"):
-        if loc["pat"].get("k") == "pid" and loc["pat"]["n"] == "has_header":
-            dflt = vf.src(loc.get("init"))
-    ctx.site(rid, "default", F, fi.line, {"has_header": dflt})
-    # the default is decided by evaluating the initialiser on None / Some(true) / Some(false)
-    for loc in vf.find(fi.node, "local"):
-        if loc["pat"].get("k") == "pid" and loc["pat"]["n"] == "has_header" and loc.get("init") is not None:
-            for arg, want in ((("None",), False), (("Some", True), True), (("Some", False), False)):
-                try:
-                    v = Interp(env={"has_header": arg}).eval(loc["init"])
-                except Unknown as e:
-                    ctx.incomplete_msg(rid, "default: %s" % e)
-                    continue
-                if v is not want:
-                    ctx.violation(rid, "default", F, fi.line, "has_header = %r is read as %r (the draft's default is no header row)" % (arg, v))
-    for hh in (True, False):
-        for row in (0, 1, 2):
-            field = ("csvfield", "x")
+    MutList = absint.MutList
 
-            def on_call(kind, nm, node, args, recv):
-                if kind == "fn" and nm == "coerce_field":
-                    return ("coerced", args[0])
-                if kind == "method" and recv == field and nm in ("to_string", "to_owned"):
-                    return ("str-of", field)
-                return NotImplemented
-            it = Interp(env={"has_header": hh, "row_idx": row}, on_call=on_call)
-            try:
-                v = it.call_closure(cl, [field])
-            except Return as r:
-                v = r.v
-            except Unknown as e:
-                ctx.incomplete_msg(rid, "has_header=%s row=%d: %s" % (hh, row, e))
+    def fld(r, c):
+        return ("csvfield", "r%dc%d" % (r, c))
+    shape = [2, 3, 1]        # ragged rows
+
+    def mkrecords(fail_at=None):
+        recs = []
+        for r, n in enumerate(shape):
+            if fail_at == r:
+                recs.append(("Err", ("csv-error", r)))
+            else:
+                recs.append(("Ok", ("enum", "StringRecord", {"row": r, "fields": [fld(r, c) for c in range(n)]})))
+        return recs
+
+    def run(hh, fail_at=None):
+        def on_call(kind, nm, node, args, recv):
+            if kind == "fn" and nm and nm.endswith("ReaderBuilder::new"):
+                return ("enum", "ReaderBuilder", {})
+            if kind == "method" and isinstance(recv, tuple) and len(recv) == 3 and recv[1] == "ReaderBuilder":
+                if nm == "from_reader":
+                    return ("enum", "Reader", {})
+                return recv
+            if kind == "method" and isinstance(recv, tuple) and len(recv) == 3 and recv[1] == "Reader":
+                if nm in ("records", "into_records"):
+                    return absint.PyIter(mkrecords(fail_at))
+                raise Unknown("csv::Reader::%s is not modelled" % nm)
+            if kind == "method" and isinstance(recv, tuple) and len(recv) == 3 and recv[1] == "StringRecord":
+                if nm in ("iter", "into_iter"):
+                    return MutList(recv[2]["fields"])
+                if nm == "len":
+                    return len(recv[2]["fields"])
+                raise Unknown("StringRecord::%s is not modelled" % nm)
+            if kind == "method" and isinstance(recv, tuple) and recv[:1] == ("csvfield",):
+                if nm in ("to_string", "to_owned", "into"):
+                    return ("str-of", recv)
+                raise Unknown("field.%s is not modelled" % nm)
+            if kind == "method" and isinstance(recv, tuple) and recv[:1] == ("str",) and nm == "as_bytes":
+                return recv
+            if kind == "fn" and nm == "coerce_field":
+                return ("coerced", args[0])
+            if kind == "fn" and nm in ("String::from",) and args and isinstance(args[0], tuple) and args[0][:1] == ("csvfield",):
+                return ("str-of", args[0])
+            return NotImplemented
+        it = Interp(env={"csv_data": ("str", "DATA"), "has_header": hh}, on_call=on_call)
+        it.resolve_fn = vf.new_fn_resolver(ctx.facts, [F])
+        try:
+            return it.block(fi.node["body"])
+        except Return as r:
+            return r.v
+
+    def unlist(v):
+        return list(v) if isinstance(v, (list, MutList)) else (v[1] if isinstance(v, tuple) and v[:1] == ("list",) else None)
+
+    def classify(v):
+        if isinstance(v, tuple) and v[0] == "enum" and v[1].endswith("Value::String") and len(v[2]) == 1 and isinstance(v[2][0], tuple) and v[2][0][:1] == ("str-of",):
+            return ("text", v[2][0][1])
+        if isinstance(v, tuple) and v[:1] == ("coerced",):
+            return ("coerced", v[1])
+        return ("other", repr(v)[:60])
+    for label, hh in (("None", ("None",)), ("Some(false)", ("Some", False)), ("Some(true)", ("Some", True))):
+        try:
+            v = run(hh)
+        except Unknown as e:
+            ctx.incomplete_msg(rid, "has_header=%s: %s" % (label, e))
+            continue
+        rows = None
+        if isinstance(v, tuple) and v[0] == "Ok" and isinstance(v[1], tuple) and v[1][0] == "enum" and v[1][1].endswith("Value::Array") and len(v[1][2]) == 1:
+            rows = unlist(v[1][2][0])
+        if rows is None:
+            if v is OPAQUE or (isinstance(v, tuple) and v[0] == "Ok" and v[1] is OPAQUE):
+                ctx.incomplete_msg(rid, "has_header=%s: the result could not be evaluated" % label)
+            else:
+                ctx.violation(rid, "has_header=%s|shape" % label, F, fi.line, "parse_csv_to_json returns %s, expected Ok(Value::Array(rows))" % repr(v)[:80])
+            continue
+        if len(rows) != len(shape):
+            ctx.violation(rid, "has_header=%s|rows" % label, F, fi.line, "3 records give %d rows" % len(rows))
+            continue
+        for r, row in enumerate(rows):
+            cells = unlist(row[2][0]) if isinstance(row, tuple) and row[0] == "enum" and row[1].endswith("Value::Array") and len(row[2]) == 1 else None
+            key = "has_header=%s|row=%d" % (label, r)
+            if cells is None:
+                ctx.violation(rid, key, F, fi.line, "row %d is %s, expected Value::Array(fields)" % (r, repr(row)[:60]))
                 continue
-            exp_text = hh and row == 0
-            is_text = isinstance(v, tuple) and v[0] == "enum" and v[1].endswith("Value::String") and v[2] == [("str-of", field)]
-            is_coerced = v == ("coerced", field)
-            key = "has_header=%s|row=%d" % (hh, row)
-            ctx.site(rid, key, F, cl["l"], {"result": "text" if is_text else ("coerced" if is_coerced else repr(v)[:60])})
-            if (exp_text and not is_text) or (not exp_text and not is_coerced):
-                ctx.violation(rid, key, F, cl["l"], "with has_header=%s a field of row %d is mapped to %r" % (hh, row, v))
+            got = [classify(c) for c in cells]
+            exp_text = hh == ("Some", True) and r == 0
+            want = [("text" if exp_text else "coerced", fld(r, c)) for c in range(shape[r])]
+            ctx.site(rid, key, F, fi.line, {"fields": [g[0] for g in got]})
+            if any(g[0] == "other" and "opaque" in g[1] for g in got):
+                ctx.incomplete_msg(rid, "%s: a field's mapping could not be evaluated" % key)
+            elif got != want:
+                ctx.violation(rid, key, F, fi.line, "with has_header=%s row %d is mapped to %s; expected %s of each of its %d fields in order"
+                              % (label, r, [(g[0], g[1][1] if isinstance(g[1], tuple) else g[1]) for g in got], "the text" if exp_text else "coerce_field", shape[r]))
+    # a record the reader fails on is the function's error
+    try:
+        v = run(("None",), fail_at=1)
+        ctx.site(rid, "reader-error", F, fi.line, {"result": repr(v)[:60]})
+        if not (isinstance(v, tuple) and v[0] == "Err"):
+            if v is OPAQUE:
+                ctx.incomplete_msg(rid, "reader-error: the result could not be evaluated")
+            else:
+                ctx.violation(rid, "reader-error", F, fi.line, "a record error from the csv reader is not returned: result %s" % repr(v)[:80])
+    except Unknown as e:
+        ctx.incomplete_msg(rid, "reader-error: %s" % e)
 
 
 def r_reader(ctx):
